@@ -92,6 +92,18 @@ CHECKS = {
         design="§7 C11",
         note="Revocation / membership / range / verifiable-encryption leaves are covered on the implementation only. Panics while decoding corrupted bytes are not acceptance; they are C20's subject.",
         technique="Coq theorems (algebraic tamper lemmas + verifier-model consequences) + exhaustive single-site mutation of honest presentations on the implementation"),
+    "C07": dict(
+        text="PARTIAL. Theorems: perfect honest-verifier zero knowledge of the commitment sub-protocol (for every challenge and every two values an explicit bijection of the randomness gives identical published and hashed tuples); every Schnorr response is a bijective image of its nonce; the encryption sub-protocol's view is a function of the ElGamal ciphertext and uniform responses; re-randomised signature elements are credential-independent (C12); what a shared or reused nonce reveals. Semantic security of ElGamal (DDH), zero knowledge of bulletproofs and of the accumulator proof are assumed. "
+             "Search on the implementation: the distinguisher catalogue (two-term relations of every transmitted element against all public generators with the nonce solved from the response, per-byte dictionary tests, pairwise response differences) on Presentation::create output for commitment / range / encryption (+scalar decryption) / encrypt-and-decrypt statements with the signed value and decoys.",
+        design="§7 C07",
+        note="Computational assumptions (DDH/DLIN, bulletproof ZK) are not carried by any theorem. The implementation's prover is tied to the model through the verifier (C03/C05) and the distinguisher catalogue; a full wiring recovery through a scripted RNG is not built. Fixed defect b4949f5 (nonce reused as blinding factor / encryption randomness / byte nonce) is recorded with its refutation theorem.",
+        technique="Coq theorems (explicit simulators / bijections on the randomness) + public-data distinguisher catalogue on honest presentations"),
+    "C12": dict(
+        text="PARTIAL. Theorems: for any two valid signatures of an issuer there is an explicit bijection on the prover's randomness under which the published BBS pair (a_bar, b_bar) resp. PS pair (sigma_1', sigma_2') coincide, so these elements are the same function of fresh randomness whichever credential produced them; a nonce reused across presentations reveals its secret. With C07's lemmas the remaining proof material is uniform or an encryption under fresh randomness (DDH/DLIN assumed). "
+             "Search on the implementation: three presentations per case (two from one credential, one from another credential of the same issuer): leaf equality at equal positions, cross-presentation nonce reuse for every hidden claim, pairing cross-ratios of G1 x G2 leaves.",
+        design="§7 C12",
+        note="As C07. The linking catalogue is finite; the re-randomisation theorems carry the claim for the signature material.",
+        technique="Coq theorems (re-randomisation bijections) + linking-test catalogue on honest presentations"),
 }
 
 PLANNED = {
